@@ -140,16 +140,17 @@ Definition scope_end (z : nat) (k : code) : code :=
                         | _, _ => None end)
     (fun blk => switch_if blk k).
 
-(* the end of a spawned future: locals dropped, then Wrapper::finish(Ok(value)); no thread_fn epilogue.
-   (Wrapper::finish also pops the task's thread-locals; the programs of the correspondence check use thread-locals
-   in threads only, and this loop is not modelled for futures.) *)
-Definition async_fin (jt : nat) (value : N) (gs : list (nat * bool)) (ahs : list nat) : code :=
+(* the end of a spawned future: locals dropped, then Wrapper::finish(Ok(value)): the task's thread-local destructors run
+   (the same pop_local loop as in thread_fn; they are user code and may contain scheduling points), then the result is
+   published and the task awaiting the JoinHandle is woken, in one block; no thread_fn epilogue *)
+Definition async_fin (tls : nat) (dtor : nat -> code -> code) (jt : nat) (value : N) (gs : list (nat * bool)) (ahs : list nat) : code :=
   Log TAG_END [] (drop_guards true gs (detach_all ahs
-    (atomic_u (fun e st => wrapper_finish e st jt (Some value)) Ret))).
+    (tls_loop TLS_ROUNDS tls dtor (atomic_u (fun e st => wrapper_finish e st jt (Some value)) Ret)))).
 
 (* Wrapper::poll finding the abort flag set: the future is dropped (its live locals with it), then finish(Err(Cancelled)) *)
-Definition async_abort (jt : nat) (gs : list (nat * bool)) (ahs : list nat) : code :=
-  drop_guards false gs (detach_all ahs (atomic_u (fun e st => wrapper_finish e st jt None) Ret)).
+Definition async_abort (tls : nat) (dtor : nat -> code -> code) (jt : nat) (gs : list (nat * bool)) (ahs : list nat) : code :=
+  drop_guards false gs (detach_all ahs
+    (tls_loop TLS_ROUNDS tls dtor (atomic_u (fun e st => wrapper_finish e st jt None) Ret))).
 
 (* async handles: (task id, still owned?) *)
 Definition live_handles (ahs : list (nat * bool)) : list nat := map fst (filter snd ahs).
@@ -260,14 +261,14 @@ Fixpoint comp (fuel : nat) (jt : nat) (bodies : list (list op)) (b : nat) (ctx :
          | PASpawn j =>
            Switch (SpawnNow
                      (atomic_b (fun e st => match wrapper_aborted e st jt with Some ab => Some (e, st, ab) | None => None end)
-                        (fun ab => if ab then async_abort jt [] []
-                                   else comp f jt bodies j CtxTask (async_fin jt (N.of_nat j)) []))
+                        (fun ab => if ab then async_abort tls dtor jt [] []
+                                   else comp f jt bodies j CtxTask (async_fin tls dtor jt (N.of_nat j)) []))
                      (fun tid => atomic_u (fun e st => joins_register e st jt tid)
                                    (Log TAG_ASPAWN [N.of_nat tid] (go r hs js gs (ahs ++ [(tid, true)])))))
          | PAwait h => match nth_error ahs h with
                        | Some (t, true) =>
                          await_join AWAIT_FUEL (match ctx with CtxTask => CtxTask | _ => CtxBlockOn end) jt t
-                           (async_abort jt gs (live_handles ahs))
+                           (async_abort tls dtor jt gs (live_handles ahs))
                            (fun res => Log TAG_AWAIT (match res with Some v => [0%N; v] | None => [1%N] end)
                                          (atomic_u (fun e st => detach_handle e st t) (go r hs js gs (consume_handle ahs h))))
                        | _ => Panic end
@@ -277,7 +278,7 @@ Fixpoint comp (fuel : nat) (jt : nat) (bodies : list (list op)) (b : nat) (ctx :
          | PDetach h => match nth_error ahs h with
                         | Some (t, true) => atomic_u (fun e st => detach_handle e st t) (Log TAG_DETACH [N.of_nat t] (go r hs js gs (consume_handle ahs h)))
                         | _ => Panic end
-         | PAYield => await_yield (match ctx with CtxTask => CtxTask | _ => CtxBlockOn end) jt (async_abort jt gs (live_handles ahs))
+         | PAYield => await_yield (match ctx with CtxTask => CtxTask | _ => CtxBlockOn end) jt (async_abort tls dtor jt gs (live_handles ahs))
                         (Log TAG_AYIELD [] (go r hs js gs ahs))
          | PBlockOn j => Log TAG_BLOCKON [N.of_nat j]
                            (comp f jt bodies j CtxBlockOn (fun gs' ahs' => drop_guards true gs' (detach_all ahs' (Log TAG_BLOCKON [] (go r hs js gs ahs)))) (gs ++ outer))
